@@ -13,6 +13,14 @@ import (
 type executionContext struct {
 	commander  *Commander
 	parameters Parameters
+	// releases are run when run() returns, that is once the log is persisted
+	// (or the request failed): what protects a request against its competitors
+	// must be held until its effect is visible in the store.
+	releases []func()
+}
+
+func (e *executionContext) releaseOnReturn(fn func()) {
+	e.releases = append(e.releases, fn)
 }
 
 func (e *executionContext) AppendLog(ctx context.Context, log *ledger.Log) (*ledger.ChainedLog, chan struct{}, error) {
@@ -47,6 +55,11 @@ func (e *executionContext) appendLog(ctx context.Context, log *ledger.Log) (*led
 }
 
 func (e *executionContext) run(ctx context.Context, executor func(e *executionContext) (*ledger.ChainedLog, chan struct{}, error)) (*ledger.ChainedLog, error) {
+	defer func() {
+		for i := len(e.releases) - 1; i >= 0; i-- {
+			e.releases[i]()
+		}
+	}()
 	if ik := e.parameters.IdempotencyKey; ik != "" {
 		if err := e.commander.referencer.take(referenceIks, ik); err != nil {
 			return nil, err
